@@ -87,10 +87,10 @@ CHECKS["C01"] = dict(
          "observed value / abort is Eval's. TLC additionally enumerates operator families exhaustively (MC_AikenExpr: arithmetic "
          "incl. all floor division / modulo sign cases and division by zero, short-circuit && / || / and / or over aborting "
          "operands, comparisons, let strictness) on an argument grid and every (expression, argument) pair is replayed. " 
-         "Directed families (tools/aikendirected.py: list-pattern shapes under expect x list lengths, casts from Data x ill-formed data, bindings used only by a trace, one constant three times per operand position for integer and byte-array builtins, Data parameters through function values, recursive functions with static / swapped / shadowed / functional parameters) are judged by Eval under silent and verbose tracing.",
+         "Directed families (tools/aikendirected.py: list-pattern shapes under expect x list lengths, casts from Data x ill-formed data, bindings used only by a trace, one constant three times per operand position for integer and byte-array builtins, Data parameters through function values, recursive functions with static / swapped / shadowed / functional parameters, strictness of zero-argument functions / guards / expect on discards, generic functions at several instances in one program, String-bearing containers, BLS12-381 point constants as multiples of the generator) are judged by Eval under silent and verbose tracing.",
     design_ref="DESIGN.md section 6 C01, section 4.6",
     note="Trusted: my reading of the language semantics; the python renderer (every rendered module is re-checked by the real type "
-         "checker under its annotations). Strings only in trace; integers small; recursion fuel 60; programs the spec cannot judge "
+         "checker under its annotations). Strings are ASCII; BLS points are the three literals fixed by the standard (generator, its negation, infinity) and small multiples of them; integers small; recursion fuel 60; programs the spec cannot judge "
          "are skipped and counted.",
     technique="TLA+ definitional interpreter of Aiken source; trace validation of compiled-code runs by TLC; TLC-enumerated "
               "expression families replayed through the real compiler")
@@ -102,7 +102,7 @@ CHECKS["C02"] = dict(
          "evaluated on the same arguments and must all agree (same value, or all fail); a panic anywhere is a violation. The "
          "pre-optimisation runs are additionally validated against Aiken.tla by Obs_Aiken, so the chain is anchored at the source "
          "semantics. " 
-         "The same directed families and a module of constants beyond a machine word go through the same stage chain.",
+         "The same directed families (incl. BLS12-381 point constants that the optimiser collects and shares) and a module of constants beyond a machine word go through the same stage chain.",
     design_ref="DESIGN.md section 6 C02",
     note="The `__no_inline__` marker lambdas the code generator leaves for the optimiser are erased before an intermediate program "
          "is evaluated (they are never applied; clean_up_no_inlines erases them). Both sides are evaluated by the real machine. "
